@@ -164,6 +164,20 @@ def big_batches(ctx, rng):
                 ctx.violation("TransformIsManhattan", SITE, "batch of %d rows" % n, "transform differs from the Manhattan distances")
             if not numpy.allclose(want[numpy.arange(n), lab], want.min(axis=1), rtol=0, atol=1e-9):
                 ctx.violation("PredictIsNearest", SITE, "batch of %d rows" % n, "predict is not a nearest centre")
+            # the same points with an integer dtype (the values are integers; the centres are medians, often x.5)
+            for dt in (numpy.int64, numpy.int32):
+                m = min(n, 600)
+                ctx.evaluations += 1
+                try:
+                    lab_i = km.predict(Q[:m].astype(dt))
+                    got_i = km.transform(Q[:m].astype(dt))
+                except Exception as e:
+                    ctx.violation("PredictIsNearest", SITE, "integer-typed batch", repr(e)[:200])
+                    continue
+                if not numpy.allclose(want[numpy.arange(m), lab_i], want[:m].min(axis=1), rtol=0, atol=1e-9):
+                    ctx.violation("PredictIsNearest", SITE, "integer-typed batch", "predict(%s points) is not a nearest centre" % dt.__name__)
+                if got_i.shape != want[:m].shape or not numpy.allclose(got_i, want[:m], rtol=0, atol=1e-9):
+                    ctx.violation("TransformIsManhattan", SITE, "integer-typed batch", "transform(%s points) differs" % dt.__name__)
 
 
 RESULT_CLAUSES = {"NearestLabel", "InertiaIsSum", "CentresInBox", "PredictIsNearest", "TransformIsManhattan", "L2IsKMeans"}
